@@ -65,7 +65,7 @@ _SNAP_NONE = ('class 2: `snapshot` is None only when snapshot_needed was false, 
               'taken with snapshot == None. Only this None edge is cut: the Some edge must still restore.')
 for _f in ('insert', 'insert_with_statistics', 'remove_vertex'):
     INFEASIBLE.setdefault(D_ + _f, []).append(('bool::then', 'err', _SNAP_NONE))
-_F2 = ('class 3 (open item F2): failure after the first new cell was inserted; each of these calls fails only on an '
+_F2 = ('class 3 (remaining exits of F2, no witness): failure after the first new cell was inserted; each of these calls fails only on an '
        'internally inconsistent Tds (missing vertex key, non-manifold cavity boundary, broken neighbour symmetry) or '
        'under an injected fault; no input through the public API found that reaches it')
 for _c in ('Cell::new', 'Tds::insert_cell_with_mapping', 'locate::extract_cavity_boundary',
@@ -330,6 +330,33 @@ MAYBE_CHECK = D_ + 'maybe_check_after_insertion'
 SNAPCOND_SITES = {D_ + 'insert': True, D_ + 'insert_with_statistics': True, D_ + 'remove_vertex': False}
 
 
+def _ascend_params(prog, mod, leaves, sub, depth=3):
+    """A value that is a parameter of a helper continues in the helper's callers: for every
+    ('param', i, helper) leaf, follow argument i of the calls to that helper found among `leaves`."""
+    import valueflow
+    out = list(sub)
+    seen = set()
+    work = [x for x in sub if x[0] == 'param']
+    while work and depth > 0:
+        depth -= 1
+        nxt = []
+        for (_, i, hq) in work:
+            if (i, hq) in seen:
+                continue
+            seen.add((i, hq))
+            for l in leaves:
+                if l[0] != 'call' or (l[1].resolved or l[1].callee) != hq:
+                    continue
+                caller = prog.bodies[l[3]]
+                if i - 1 >= len(l[1].args) or l[1].args[i - 1].place is None:
+                    continue
+                more = valueflow.deep_sources(prog, mod, caller, l[1].args[i - 1].place.local, depth=1)
+                out += more
+                nxt += [x for x in more if x[0] == 'param']
+        work = nxt
+    return out
+
+
 def _snapcond(ctx, cfg, prog, mod):
     """SNAPCOND: the three conditional snapshots decide from the same inputs that make the fallible
     post-steps fire: the repair policy, and (when a Delaunay check follows) should_check evaluated
@@ -366,6 +393,7 @@ def _snapcond(ctx, cfg, prog, mod):
                         cb = prog.bodies[l[3]]
                         arg = l[1].args[1] if len(l[1].args) > 1 else None
                         sub = valueflow.deep_sources(prog, mod, cb, arg.place.local, depth=1) if arg is not None and arg.place is not None else []
+                        sub = _ascend_params(prog, mod, leaves, sub)
                         reads_count = any(x[0] == 'place' and 'delaunay_repair_insertion_count' in x[1][1] for x in sub)
                         plus_one = any((x[0] == 'call' and (x[1].resolved or x[1].callee or '').rsplit('::', 1)[-1] in
                                         ('saturating_add', 'checked_add', 'wrapping_add', 'add') and
